@@ -99,6 +99,7 @@ case_st = st.fixed_dictionaries({
                                     "leaf": seg_body, "qargs": qargs_st}),
     "hops": st.sampled_from([0, 1, 1, 2, 2, 3, 3, 4, 4]).flatmap(lambda n: st.lists(hop_st, min_size=n, max_size=n)),
     "again": st.one_of(st.none(), st.integers(0, 7)),
+    "method": st.sampled_from(["GET", "GET", "GET", "HEAD"]),
 })
 
 
@@ -174,14 +175,15 @@ def make_app(idx, table, log):
             body = b"unrouted"
             start_response("404 Not Found", [("Content-Length", str(len(body)))])
             return [body]
+        head = environ["REQUEST_METHOD"] == "HEAD"       # the reply to a HEAD carries the headers only
         if act["kind"] == "final":
             body = b"final:%d" % act["pos"]
             start_response("200 OK", [("Content-Type", "text/plain"), ("Content-Length", str(len(body)))])
-            return [body]
+            return [] if head else [body]
         body = b"x" * act["bodylen"]
         start_response("%d %s" % (act["code"], CODES[act["code"]]),
                        [("Location", act["location"]), ("Content-Length", str(len(body)))])
-        return [body] if body else []
+        return [body] if body and not head else []
     return app
 
 
@@ -232,7 +234,8 @@ def run_case(case):
         s0, p0, q0 = positions[0]
         patron = clienting.Patron(hostname="127.0.0.1", port=ports[s0], store=store, bufsize=65536)
         patron.open()
-        patron.request(method="GET", path=p0, qargs=odict((k, v) for k, v in q0),
+        method = case.get("method", "GET")
+        patron.request(method=method, path=p0, qargs=odict((k, v) for k, v in q0),
                        headers=odict([("Accept", "*/*")]))
         state, rounds, ex = follow(patron, valets)
         desc = "chain %r" % ([(s, p, q) for s, p, q in positions],) + " locations %r" % (locations,)
@@ -243,10 +246,15 @@ def run_case(case):
                      "following hop %d (Location %r) raised %r; %s"
                      % (k, locations[k] if 0 <= k < len(locations) else None, ex, desc))], False
         if state == "bound":
+            if method == "HEAD" and len(log) == len(positions) and not patron.responses:
+                # every hop was requested and answered (in-process servers), yet no final response is delivered
+                return [("final-response-never-delivered/HEAD", "a redirected HEAD request: all %d requests were made and answered but "
+                         "the client delivers no final response (it still waits, response parser method %r); %s"
+                         % (len(log), getattr(patron.respondent, "method", None), desc))], False
             return [], True
         fails = []
         # what the servers saw
-        want = [(s, "GET", p, [(k, str(v)) for k, v in q]) for s, p, q in positions]
+        want = [(s, method, p, [(k, str(v)) for k, v in q]) for s, p, q in positions]
         got = [(s, m, p, parse_qsl(q, keep_blank_values=True)) for s, m, p, q, _ in log]
         if got != want:
             k = next((i for i, (a, b) in enumerate(zip(got, want)) if a != b), min(len(got), len(want)))
@@ -265,9 +273,10 @@ def run_case(case):
         if len(patron.responses) != 1:
             fails.append(("response-count", "%d responses delivered; %s" % (len(patron.responses), desc)))
         resp = patron.responses[0]
-        if resp.get("status") != 200 or bytes(resp.get("body", b"")) != b"final:%d" % (len(positions) - 1):
+        wantbody = b"" if method == "HEAD" else b"final:%d" % (len(positions) - 1)
+        if resp.get("status") != 200 or bytes(resp.get("body", b"")) != wantbody:
             fails.append(("final-response", "final response is %r %r, expected 200 %r; %s"
-                          % (resp.get("status"), bytes(resp.get("body", b""))[:40], b"final:%d" % (len(positions) - 1), desc)))
+                          % (resp.get("status"), bytes(resp.get("body", b""))[:40], wantbody, desc)))
         reds = resp.get("redirects") or []
         got_chain = [(r.get("status"), (r.get("headers") or {}).get("location")) for r in reds]
         want_chain = [(h["code"], loc) for h, loc in zip(hops, locations)]
@@ -282,20 +291,20 @@ def run_case(case):
         patron.responses.clear()
         del log[:]
         sk, pk, qk = positions[k]
-        patron.request(method="GET", path=pk, qargs=odict((a, b) for a, b in qk), headers=odict([("Accept", "*/*")]))
+        patron.request(method=method, path=pk, qargs=odict((a, b) for a, b in qk), headers=odict([("Accept", "*/*")]))
         state, rounds, ex = follow(patron, valets)
         if state == "raised":
             return [("%s/again" % httppipe.exc_sig(ex), "second request (from position %d) raised %r; %s" % (k, ex, desc))], False
         if state == "bound":
             return [], True
-        want = [(s_, "GET", p_, [(a, str(b)) for a, b in q_]) for s_, p_, q_ in positions[k:]]
+        want = [(s_, method, p_, [(a, str(b)) for a, b in q_]) for s_, p_, q_ in positions[k:]]
         got = [(s_, m_, p_, parse_qsl(q_, keep_blank_values=True)) for s_, m_, p_, q_, _ in log]
         if got != want:
             return [("again-wrong-hop", "second request from position %d: servers saw %r, chain is %r; %s" % (k, got, want, desc))], False
         if len(patron.responses) != 1:
             return [("again-response-count", "second request: %d responses delivered; %s" % (len(patron.responses), desc))], False
         resp = patron.responses[0]
-        if resp.get("status") != 200 or bytes(resp.get("body", b"")) != b"final:%d" % (len(positions) - 1):
+        if resp.get("status") != 200 or bytes(resp.get("body", b"")) != wantbody:
             fails.append(("again-final-response", "second request: final response is %r %r; %s"
                           % (resp.get("status"), bytes(resp.get("body", b""))[:40], desc)))
         got_chain = [(r.get("status"), (r.get("headers") or {}).get("location")) for r in resp.get("redirects") or []]
@@ -534,6 +543,7 @@ def classify(case):
             cls.append("location-with-query")
     if case.get("again") is not None:
         cls.append("second-request-same-patron")
+    cls.append("method:" + case.get("method", "GET"))
     cls = sorted(set(cls))
     if nt:
         cls.append("non-trivial")
